@@ -179,14 +179,16 @@ def basis_spline(  # pylint: disable=dangerous-default-value  # always replaced 
         if knots[i + j] != knots[i]
         else 0
     )
+    # When extending, the first/last non-empty knot intervals are continued
+    # (interior knots may coincide with the bounds, leaving empty intervals).
+    nonempty = [i for i in range(len(knots) - 1) if knots[i] < knots[i + 1]] or [
+        degree
+    ]
     for i in range(len(knots) - 1):
         if extrapolation is SplineExtrapolation.EXTEND:
             cache[0][i] = (  # type: ignore
-                (x >= (knots[i] if i != degree else -numpy.inf))
-                & (
-                    x
-                    < (knots[i + 1] if i + 1 != len(knots) - degree - 1 else numpy.inf)
-                )
+                (x >= (knots[i] if i != nonempty[0] else -numpy.inf))
+                & (x < (knots[i + 1] if i != nonempty[-1] else numpy.inf))
             ).astype(float)
         else:
             cache[0][i] = (
